@@ -865,7 +865,7 @@ def rule_stage_truthiness(repo: Repo, rep: Report) -> int:
                 if isinstance(e, ast.UnaryOp) and isinstance(e.op, ast.Not):
                     e = e.operand
                 ch = attr_chain(e) if isinstance(e, ast.Attribute) else None
-                if ch and ch.startswith("self.") and ch.count(".") == 1 and not any(w in ch for w in ("training", "steps", "branches", "_", "max_workers", "return")):
+                if ch and ch.startswith("self.") and ch.count(".") == 1 and not ch[5:].startswith("_") and ch[5:] not in ("training", "steps", "branches", "max_workers", "step_configs"):
                     # a collection of stages (ModuleList / list: indexed, iterated or measured in this function) is tested for emptiness, not for presence
                     coll = any((isinstance(u, ast.Subscript) and attr_chain(u.value) == ch) or (isinstance(u, (ast.For, ast.comprehension)) and any(attr_chain(y) == ch for y in ast.walk(u.iter) if isinstance(y, ast.Attribute))) or (isinstance(u, ast.Call) and call_name(u) == "len" and u.args and attr_chain(u.args[0]) == ch) for u in ast.walk(fi.node))
                     if not coll:
